@@ -13,21 +13,21 @@ import (
 
 // VerifPoolSnap is a snapshot of the transaction pool taken under pool.mu.
 type VerifPoolSnap struct {
-	Pending  map[common.Address]types.Transactions // nonce-sorted
-	Queue    map[common.Address]types.Transactions // nonce-sorted
-	All      types.Transactions                    // sorted by hash
-	PNonce   map[common.Address]uint64             // pendingState.GetNonce for the requested accounts
-	CNonce   map[common.Address]uint64             // currentState.GetNonce for the requested accounts
-	Balance  map[common.Address]*big.Int           // currentState.GetBalance
-	Locals   map[common.Address]bool
-	PCostCap map[common.Address]*big.Int // txList.costcap / gascap of every pending and queue list (also of empty ones)
-	QCostCap map[common.Address]*big.Int
-	PGasCap  map[common.Address]uint64
-	QGasCap  map[common.Address]uint64
+	Pending      map[common.Address]types.Transactions // nonce-sorted
+	Queue        map[common.Address]types.Transactions // nonce-sorted
+	All          types.Transactions                    // sorted by hash
+	PNonce       map[common.Address]uint64             // pendingState.GetNonce for the requested accounts
+	CNonce       map[common.Address]uint64             // currentState.GetNonce for the requested accounts
+	Balance      map[common.Address]*big.Int           // currentState.GetBalance
+	Locals       map[common.Address]bool
+	PCostCap     map[common.Address]*big.Int // txList.costcap / gascap of every pending and queue list (also of empty ones)
+	QCostCap     map[common.Address]*big.Int
+	PGasCap      map[common.Address]uint64
+	QGasCap      map[common.Address]uint64
 	PricedItems  types.Transactions // txPricedList.items: the price heap array, in array order (stale entries included)
 	PricedStales int
-	GasPrice *big.Int
-	MaxGas   uint64
+	GasPrice     *big.Int
+	MaxGas       uint64
 }
 
 func verifSorted(l *txList) types.Transactions {
@@ -112,4 +112,40 @@ func (pool *TxPool) VerifRotateJournal() error {
 		return nil
 	}
 	return pool.journal.rotate(pool.local())
+}
+
+// VerifSortedMap drives a real txSortedMap on its own (cache coherence cases of C15).
+type VerifSortedMap struct{ m *txSortedMap }
+
+func NewVerifSortedMap() *VerifSortedMap { return &VerifSortedMap{m: newTxSortedMap()} }
+
+func (v *VerifSortedMap) Put(tx *types.Transaction)             { v.m.Put(tx) }
+func (v *VerifSortedMap) Forward(th uint64) types.Transactions  { return v.m.Forward(th) }
+func (v *VerifSortedMap) Cap(k int) types.Transactions          { return v.m.Cap(k) }
+func (v *VerifSortedMap) Ready(start uint64) types.Transactions { return v.m.Ready(start) }
+func (v *VerifSortedMap) Flatten() types.Transactions           { return v.m.Flatten() }
+func (v *VerifSortedMap) Filter(f func(*types.Transaction) bool) types.Transactions {
+	return v.m.Filter(f)
+}
+
+// Remove returns the removed transaction (nil if the nonce was not present).
+func (v *VerifSortedMap) Remove(nonce uint64) *types.Transaction {
+	tx := v.m.Get(nonce)
+	if !v.m.Remove(nonce) {
+		return nil
+	}
+	return tx
+}
+
+// Dump returns the contents sorted by nonce (computed from the map, never from the cache) and the cache as it is
+// (cacheNil = Go's nil, i.e. Flatten would rebuild it).
+func (v *VerifSortedMap) Dump() (items types.Transactions, cache types.Transactions, cacheNil bool) {
+	for _, tx := range v.m.items {
+		items = append(items, tx)
+	}
+	sort.Slice(items, func(i, j int) bool { return items[i].Nonce() < items[j].Nonce() })
+	if v.m.cache == nil {
+		return items, nil, true
+	}
+	return items, append(types.Transactions{}, v.m.cache...), false
 }
